@@ -26,7 +26,8 @@ theorem history_refines (s : Stk) (ops : List Op) :
 /-- Every read at depth `d` returns the population a plain stack holds at that depth. -/
 theorem try_peek_eq (s : Stk) (d : Nat) : tryPeek s d = (abs s)[d]? := PopStack.tryPeek_eq s d
 
-/-- The non-panicking accessors answer `none` exactly on an empty / too shallow stack. -/
+/-- The non-panicking accessors answer `none` exactly on an empty / too shallow stack, and never panic
+(`get_current_mut` hands out the vector; only an edit that itself panics — `editOk` excludes those — can fail). -/
 theorem nonpanicking_none_iff (s : Stk) (d : Nat) :
     ((step s (.tryPeek d)).2 = .none ↔ s.length ≤ d) ∧
     ((step s .tryPop).2 = .none ↔ s = []) ∧
@@ -45,6 +46,100 @@ theorem nonpanicking_none_iff (s : Stk) (d : Nat) :
   · simp only [step]; cases tryPeek s d <;> simp
   · simp only [step]; cases vecPop s <;> simp
   · simp only [step]; cases s.getLast? <;> simp
+
+/-- The edit does not panic on the population it is applied to. -/
+def editOk (e : Edit) (p : Pop) : Bool := (applyEdit e p).isSome
+
+/-- `get_current_mut` answers `none` exactly on an empty stack; with an edit that does not itself panic on the
+current population nothing panics. -/
+theorem get_current_mut_none_iff (s : Stk) (e : Edit) :
+    ((step s (.tryEdit e)).2 = .none ↔ s = []) ∧
+    (∀ p, s.getLast? = some p → editOk e p = true → (step s (.tryEdit e)).2 = .ok) := by
+  rcases List.eq_nil_or_concat s with h | ⟨r, p, h⟩
+  · subst h; simp [step, vecPop]
+  · subst h
+    refine ⟨?_, ?_⟩
+    · cases he : applyEdit e p <;> simp [step, vecPop, he]
+    · intro q hq hok
+      simp only [List.concat_eq_append, List.getLast?_append, List.getLast?_singleton, Option.some_or,
+        Option.some.injEq] at hq
+      subst hq
+      simp only [editOk] at hok
+      cases he : applyEdit e p with
+      | none => simp [he] at hok
+      | some p' => simp [step, vecPop, he]
+
+/-- Whenever an operation answers `none` or panics, the stack is exactly what it was. -/
+theorem failed_access_leaves_stack (s : Stk) (op : Op) (h : (step s op).2 = .none ∨ (step s op).2 = .panic) :
+    (step s op).1 = s := by
+  cases op <;> simp only [step] at h ⊢ <;> try (simp at h; done)
+  case pop => cases hv : vecPop s with
+    | none => simp
+    | some x => simp [hv] at h
+  case tryPop => cases hv : vecPop s with
+    | none => simp
+    | some x => simp [hv] at h
+  case cur => cases s.getLast? <;> simp
+  case getCur => cases s.getLast? <;> simp
+  case edit e => cases hv : vecPop s with
+    | none => simp
+    | some x => cases he : applyEdit e x.1 with
+      | none => simp [he]
+      | some p' => simp [hv, he] at h
+  case tryEdit e => cases hv : vecPop s with
+    | none => simp
+    | some x => cases he : applyEdit e x.1 with
+      | none => simp [he]
+      | some p' => simp [hv, he] at h
+  case peek d => cases tryPeek s d <;> simp
+  case tryPeek d => cases tryPeek s d <;> simp
+  case rot n => cases hr : rotate s n with
+    | none => simp
+    | some x => simp [hr] at h
+  case cRot n =>
+    by_cases hn : s.length < n
+    · simp [hn]
+    · cases hr : rotate s n with
+      | none => simp [hn]
+      | some x => simp [hr, hn] at h
+  case cClear => cases hv : vecPop s with
+    | none => simp
+    | some x => simp [hv] at h
+  case cDup => cases hv : vecPop s with
+    | none => simp
+    | some x => simp [hv] at h
+  case cIleave w => cases hv : vecPop s with
+    | none => simp
+    | some x => cases hv2 : vecPop x.2 with
+      | none => simp [hv, hv2] at h; split at h <;> simp at h
+      | some y => simp [hv, hv2] at h
+  case cSplit w ws => cases hv : vecPop s with
+    | none => simp
+    | some x => cases hs : splitPop x.1 ws with
+      | none => simp [hv, hs] at h; split at h <;> simp at h
+      | some y => simp [hv, hs] at h
+
+/-- The documented `# Panics` of the panicking accessors: exactly on an empty / too shallow stack. -/
+theorem panics_iff (s : Stk) (d n : Nat) :
+    ((step s .pop).2 = .panic ↔ s = []) ∧ ((step s .cur).2 = .panic ↔ s = []) ∧
+    ((step s (.peek d)).2 = .panic ↔ s.length ≤ d) ∧ ((step s (.rot n)).2 = .panic ↔ s.length < n) ∧
+    (∀ e, s = [] → (step s (.edit e)).2 = .panic) := by
+  refine ⟨?_, ?_, ?_, ?_, ?_⟩
+  · rcases List.eq_nil_or_concat s with h | ⟨r, p, h⟩ <;> subst h <;> simp [step, vecPop]
+  · rcases List.eq_nil_or_concat s with h | ⟨r, p, h⟩ <;> subst h <;> simp [step]
+  · simp only [step, tryPeek_eq]
+    cases h : (abs s)[d]? with
+    | none => simp; rw [List.getElem?_eq_none_iff] at h; simpa [abs] using h
+    | some p =>
+      simp
+      have := (List.getElem?_eq_some_iff.mp h).1
+      simpa [abs] using this
+  · simp only [step]
+    by_cases h : s.length < n
+    · simp [rotate_none s n h, h]
+    · obtain ⟨s', h1, _⟩ := rotate_eq s n (by omega)
+      simp [h1, h]
+  · intro e h; subst h; simp [step, vecPop]
 
 /-- `rotate n` shifts exactly the top `n` populations by one and leaves everything below alone. -/
 theorem rotate_shifts_top_n (s : Stk) (n : Nat) (h : n ≤ s.length) :
@@ -175,37 +270,202 @@ theorem push_pop (s : Stk) (p : Pop) :
     step (step s (.push p)).1 .pop = (s, .pop p) := by
   simp [step, vecPop]
 
-/-- `SplitPopulationByObjectiveValue` keeps exactly the individuals it was given, puts the better half
-(size `⌈n/2⌉`) on top, and no individual of the top half is worse than one of the lower half. -/
-theorem split_spec (p lower upper : Pop) (h : splitPop p = some (lower, upper)) :
-    (lower ++ upper).Perm p ∧ lower.length = (p.length + 1) / 2 ∧
-    ∀ a ∈ lower, ∀ b ∈ upper, a ≤ b := by
-  unfold splitPop at h
-  simp only at h
-  split at h
-  · cases h
-  · injection h with h
-    injection h with h1 h2
-    subst h1; subst h2
-    refine ⟨?_, ?_, ?_⟩
-    · rw [List.take_append_drop]; exact List.mergeSort_perm _ _
-    · simp [List.length_mergeSort]; omega
-    · have hs : (p.mergeSort (fun a b => decide (a ≤ b))).Pairwise (fun a b => a ≤ b) := by
-        have := List.pairwise_mergeSort (le := fun a b : Nat => decide (a ≤ b))
-          (fun a b c hab hbc => by simp at *; omega) (fun a b => by simp; omega) p
-        simpa using this
-      rw [← List.take_append_drop ((p.length + 1) / 2) (p.mergeSort _)] at hs
-      exact (List.pairwise_append.mp hs).2.2
+/-- `RotatePopulations(n)` executed `n` times restores the order as well, with no `Err` on the way. -/
+theorem rotate_component_n_times_id (s : Stk) (n : Nat) (h : n ≤ s.length) :
+    iter (fun x => (step x (.cRot n)).1) n s = s ∧ (step s (.cRot n)).2 = .ok := by
+  have hc : ∀ t : Stk, n ≤ t.length → step t (.cRot n) = step t (.rot n) := by
+    intro t ht
+    obtain ⟨t', h1, _⟩ := rotate_eq t n ht
+    have : ¬ t.length < n := by omega
+    simp [step, this, h1]
+  have hlen : ∀ t : Stk, n ≤ t.length → n ≤ (step t (.rot n)).1.length := by
+    intro t ht
+    obtain ⟨t', h1, h2⟩ := rotate_eq t n ht
+    have := congrArg List.length h2
+    rw [specRot_eq] at this
+    simp only [abs_length, List.length_append, rotL1_length, List.length_take, List.length_drop] at this
+    simp only [step, h1]; omega
+  have key : ∀ k (t : Stk), n ≤ t.length →
+      iter (fun x => (step x (.cRot n)).1) k t = iter (fun x => (step x (.rot n)).1) k t := by
+    intro k
+    induction k with
+    | zero => intro t _; rfl
+    | succ k ih =>
+      intro t ht
+      simp only [iter]
+      rw [hc t ht]
+      exact ih _ (hlen t ht)
+  refine ⟨?_, ?_⟩
+  · rw [key n s h]; exact rotate_n_times_id s n h
+  · rw [hc s h]; exact rotate_within_height_ok s n h
 
-/-- It panics exactly on fewer than two individuals (and then the population is gone). -/
-theorem split_panics_iff (p : Pop) : splitPop p = none ↔ p.length < 2 := by
-  unfold splitPop; simp
+/-! ### Conservation over histories with pushes and pops -/
 
-/-! Non-vacuity: the hypotheses are met by a concrete non-trivial stack. -/
-example : (3 : Nat) ≤ ([[1], [2, 3], [4], [5]] : Stk).length := by decide
+/- `stackOp`, `pushedBy`, `removedBy`, `pushedAll`, `removedAll` are defined in `Proofs/C04.lean`. -/
+
+theorem stack_op_conserves (s : Stk) (op : Op) (h : stackOp op = true) :
+    ((step s op).1 ++ removedBy op (step s op).2).Perm (s ++ pushedBy op) := by
+  cases op <;> simp [stackOp] at h
+  case push p => simp [step, removedBy, pushedBy]
+  case pop =>
+    rcases List.eq_nil_or_concat s with hs | ⟨r, q, hs⟩ <;> subst hs <;>
+      simp [step, vecPop, removedBy, pushedBy]
+  case tryPop =>
+    rcases List.eq_nil_or_concat s with hs | ⟨r, q, hs⟩ <;> subst hs <;>
+      simp [step, vecPop, removedBy, pushedBy]
+  all_goals
+    simp only [removedBy, pushedBy, List.append_nil]
+    exact readonly_op_perm s _ rfl
+
+/-- Over every history of pushes, pops, reads and rotations nothing is lost, duplicated or altered: what is on the
+stack at the end together with what the pops handed out is, population by population (same individuals, same order,
+same objective values), what was there at the start together with what was pushed. -/
+theorem stack_conservation (s : Stk) (ops : List Op) (h : ∀ op ∈ ops, stackOp op = true) :
+    ((run s ops).1 ++ removedAll ops (run s ops).2).Perm (s ++ pushedAll ops) := by
+  induction ops generalizing s with
+  | nil => simp [run, removedAll, pushedAll]
+  | cons op ops ih =>
+    have h1 := stack_op_conserves s op (h op (by simp))
+    have h2 := ih (step s op).1 (fun o ho => h o (by simp [ho]))
+    simp only [run, removedAll, pushedAll, List.flatMap_cons] at h2 ⊢
+    -- final ++ (rem ++ remAll) ~ (final ++ remAll) ++ rem ~ (s' ++ pushedAll) ++ rem ~ (s' ++ rem) ++ pushedAll
+    have e1 : ((run (step s op).1 ops).1 ++ (removedBy op (step s op).2 ++ removedAll ops (run (step s op).1 ops).2)).Perm
+        (((run (step s op).1 ops).1 ++ removedAll ops (run (step s op).1 ops).2) ++ removedBy op (step s op).2) := by
+      rw [List.append_assoc]
+      exact List.Perm.append_left _ List.perm_append_comm
+    have e2 := List.Perm.append_right (removedBy op (step s op).2) h2
+    have e3 : (((step s op).1 ++ List.flatMap pushedBy ops) ++ removedBy op (step s op).2).Perm
+        (((step s op).1 ++ removedBy op (step s op).2) ++ List.flatMap pushedBy ops) := by
+      rw [List.append_assoc, List.append_assoc]
+      exact List.Perm.append_left _ List.perm_append_comm
+    have e4 := List.Perm.append_right (List.flatMap pushedBy ops) h1
+    have := e1.trans (e2.trans (e3.trans e4))
+    simpa [List.append_assoc] using this
+
+/-! ### In-place edits -/
+
+/-- An in-place edit through `current_mut` / `get_current_mut` — any edit, also one that panics half way —
+changes nothing but the top population: the height and every read below the top are what they were, and the
+top is the edited vector (or the old one when the edit panicked). -/
+theorem edit_touches_top_only (s : Stk) (e : Edit) (d : Nat) :
+    (step s (.edit e)).1.length = s.length ∧
+    tryPeek (step s (.edit e)).1 (d + 1) = tryPeek s (d + 1) ∧
+    (∀ p, tryPeek s 0 = some p → tryPeek (step s (.edit e)).1 0 = some ((applyEdit e p).getD p)) ∧
+    (step s (.tryEdit e)).1 = (step s (.edit e)).1 := by
+  rcases List.eq_nil_or_concat s with h | ⟨r, p, h⟩
+  · subst h; simp [step, vecPop, tryPeek]
+  · subst h
+    cases he : applyEdit e p with
+    | none => simp [step, vecPop, he, tryPeek_eq, abs]
+    | some p' => simp [step, vecPop, he, tryPeek_eq, abs]
+
+/-! ### Utility components -/
+
+/-- `SplitPopulationByObjectiveValue`, whichever order the unstable sort leaves equal objective values in (`ws`):
+it keeps exactly the individuals it was given, puts `⌈n/2⌉` of them on top and `⌊n/2⌋` below, everything is
+evaluated, and no individual of the top half has a larger objective value than one of the lower half. -/
+theorem split_spec (p lower upper : Pop) (ws : Option (Pop × Pop)) (h : splitPop p ws = some (lower, upper)) :
+    (lower ++ upper).Perm p ∧ lower.length = (p.length + 1) / 2 ∧ upper.length = p.length / 2 ∧
+    ∀ a ∈ lower, ∀ b ∈ upper, ∃ x y, a.obj = some x ∧ b.obj = some y ∧ x ≤ y := by
+  obtain ⟨hs, hl⟩ := splitPop_some p ws lower upper h
+  obtain ⟨h1, h2, h3, h4, h5⟩ := splitLegal_spec p lower upper hs hl
+  refine ⟨h1, h2, h3, ?_⟩
+  intro a ha b hb
+  obtain ⟨x, hx, kx⟩ := h5 a (by simp [ha])
+  obtain ⟨y, hy, ky⟩ := h5 b (by simp [hb])
+  refine ⟨x, y, hx, hy, ?_⟩
+  have := (List.pairwise_append.mp h4).2.2 a ha b hb
+  omega
+
+/-- It panics exactly on fewer than two individuals or on an individual that is not evaluated. -/
+theorem split_panics_iff (p : Pop) (ws : Option (Pop × Pop)) :
+    splitPop p ws = none ↔ (p.length < 2 ∨ ∃ i ∈ p, i.obj = none) := by
+  unfold splitPop
+  by_cases hs : splittable p = true
+  · have hs' := hs
+    simp only [splittable, Bool.and_eq_true, decide_eq_true_eq, List.all_eq_true] at hs'
+    simp only [hs, if_true]
+    constructor
+    · intro h
+      cases ws with
+      | none => simp at h
+      | some w => obtain ⟨l, u⟩ := w; simp only at h; split at h <;> simp at h
+    · rintro (h | ⟨i, hi, ho⟩)
+      · omega
+      · have := hs'.2 i hi; simp [ho] at this
+  · simp only [hs, Bool.false_eq_true, if_false, true_iff]
+    simp only [splittable, Bool.and_eq_true, decide_eq_true_eq, List.all_eq_true] at hs
+    by_cases hlen : p.length < 2
+    · left; exact hlen
+    · right
+      apply Classical.byContradiction
+      intro hne
+      apply hs
+      refine ⟨by omega, ?_⟩
+      intro i hi
+      cases hio : i.obj with
+      | some x => rfl
+      | none => exact absurd ⟨i, hi, hio⟩ hne
+
+/-- The model is really nondeterministic: every legal pair of halves is accepted as it is, and the stable sort is
+one of the legal outcomes (so there always is one). -/
+theorem split_accepts_every_legal_outcome (p l u : Pop) (hs : splittable p = true) (hl : splitLegal p l u = true) :
+    splitPop p (some (l, u)) = some (l, u) ∧ splitLegal p (splitCanon p).1 (splitCanon p).2 = true := by
+  refine ⟨?_, splitCanon_legal p⟩
+  simp [splitPop, hs, hl]
+
+/-- `InterleavePopulations` on `a` (top) and `b` (below): alternates `a[0], b[0], a[1], b[1], …` while both last and
+appends the rest of the longer; so it holds exactly the individuals of both, each population in its own order. -/
+theorem interleave_spec (a b : Pop) :
+    interleave a b = (List.zip a b).flatMap (fun xy => [xy.1, xy.2]) ++ a.drop b.length ++ b.drop a.length ∧
+    (interleave a b).Perm (a ++ b) ∧ a.Sublist (interleave a b) ∧ b.Sublist (interleave a b) :=
+  ⟨interleave_eq a b, interleave_perm a b, interleave_sublist_left a b, interleave_sublist_right a b⟩
+
+/-- `DuplicatePopulation`: every individual is immediately followed by its (identical, equally evaluated) duplicate. -/
+theorem duplicate_spec (p : Pop) : interleave p p = p.flatMap (fun i => [i, i]) := interleave_self p
+
+/-- After a panic inside `InterleavePopulations` / `SplitPopulationByObjectiveValue` the stack is either untouched or has
+lost exactly the population(s) popped so far, and the reported height is the real one — for every witness. -/
+theorem component_panic_state (s : Stk) (op : Op) (h : Nat)
+    (hop : (∃ w, op = .cIleave w) ∨ (∃ w ws, op = .cSplit w ws))
+    (hp : (step s op).2 = .panicH h) :
+    h = (step s op).1.length ∧ ((step s op).1 = s ∨ (step s op).1 = s.dropLast) := by
+  rcases hop with ⟨w, rfl⟩ | ⟨w, ws, rfl⟩
+  · rcases List.eq_nil_or_concat s with hs | ⟨r, p, hs⟩
+    · subst hs; simp [step, vecPop] at hp ⊢; omega
+    · subst hs
+      rcases List.eq_nil_or_concat r with hr | ⟨r', q, hr⟩
+      · subst hr
+        by_cases hw : w = some 1 <;> simp [step, vecPop, hw] at hp ⊢ <;> omega
+      · subst hr; simp [step, vecPop] at hp
+  · rcases List.eq_nil_or_concat s with hs | ⟨r, p, hs⟩
+    · subst hs; simp [step, vecPop] at hp ⊢; omega
+    · subst hs
+      cases hsp : splitPop p ws with
+      | none =>
+        by_cases hw : w = some (r.length + 1) <;> simp [step, vecPop, hsp, hw] at hp ⊢ <;> omega
+      | some lu => simp [step, vecPop, hsp] at hp
+
+/-! Non-vacuity: the hypotheses are met by concrete non-trivial inputs. -/
+def ev (n : Nat) : Ind := ⟨n, some n⟩
+def st4 : Stk := [[ev 1], [ev 2, ev 3], [ev 4], [ev 5]]
+example : (3 : Nat) ≤ st4.length := by decide
 example : ∀ op ∈ [Op.rot 2, .peek 1, .cRot 3, .len], readOnly op = true := by decide
-example : iter (fun x => (step x (.rot 3)).1) 3 [[1], [2, 3], [4], [5]] = [[1], [2, 3], [4], [5]] := by decide
-example : (step [[1], [2, 3], [4], [5]] (.rot 3)).1 = [[1], [5], [2, 3], [4]] := by decide
-example : (splitPop [5, 1, 4, 2, 3]).isSome = true := by simp [splitPop]
+example : ∀ op ∈ [Op.push [ev 7], .rot 2, .pop, .tryPop, .peek 1, .push [], .cRot 3], stackOp op = true := by decide
+example : iter (fun x => (step x (.rot 3)).1) 3 st4 = st4 := by decide
+example : (step st4 (.rot 3)).1 = [[ev 1], [ev 5], [ev 2, ev 3], [ev 4]] := by decide
+/-- ties: tags 1 and 2 share the objective value 7; both orders of the pair are legal. -/
+def tied : Pop := [⟨1, some 7⟩, ⟨2, some 7⟩, ⟨3, some 1⟩]
+example : splittable tied = true := by decide
+example : splitLegal tied [⟨3, some 1⟩, ⟨1, some 7⟩] [⟨2, some 7⟩] = true := by decide
+example : splitLegal tied [⟨3, some 1⟩, ⟨2, some 7⟩] [⟨1, some 7⟩] = true := by decide
+example : splitLegal tied [⟨1, some 7⟩, ⟨3, some 1⟩] [⟨2, some 7⟩] = false := by decide
+example : splitPop [⟨1, some 7⟩, ⟨2, none⟩] none = none := by decide
+example : splitPop tied (some ([⟨3, some 1⟩, ⟨2, some 7⟩], [⟨1, some 7⟩])) = some ([⟨3, some 1⟩, ⟨2, some 7⟩], [⟨1, some 7⟩]) := by decide
+example : (splitPop tied none).isSome = true := by decide
+example : (step [[ev 1]] (.peek 1)).2 = .panic ∧ (step [[ev 1]] (.tryPeek 1)).2 = .none := by decide
+example : [ev 1, ev 2].getLast? = some (ev 2) ∧ editOk (.insert 1 (ev 9)) [ev 1, ev 2] = true := by decide
+example : editOk (.swapRemove 0) [ev 1, ev 2] = true ∧ editOk (.swapRemove 2) [ev 1, ev 2] = false := by decide
+example : (step [[ev 1]] (.cIleave (some 1))).2 = .panicH 1 ∧ (step [[ev 1]] (.cIleave none)).2 = .panicH 0 := by decide
 
 end MahfModel.Props.C04
